@@ -79,3 +79,76 @@ for name, (what, needs) in sorted(NEEDS.items()):
     }
     json.dump(meta, open(f"{out}/meta.json", "w"), indent=1)
 print("collected", len(os.listdir("/verif/seeded")))
+NEEDS2 = {
+ "C01-n1": ("from_bytes fast-rejects e when its top octet is >= 0x73 instead of > 0x73 (src/bbsplus/signature.rs)", "a signature whose e has top octet 0x73 (~0.8 % of signatures): the 80-octet round trip fails"),
+ "C01-n2": ("verify(None messages) takes a shortcut that hashes the domain without the api_id (src/bbsplus/signature.rs)", "verify with an ABSENT message list (Some(empty) is fine)"),
+ "C02-n1": ("plain verify falls back to the blind interface when the plain check fails (src/bbsplus/signature.rs)", "a signature issued through blind_sign without commitment, verified through the plain interface"),
+ "C02-n2": ("e decoded with CtOption::unwrap (src/bbsplus/signature.rs)", "a bit flip that makes e >= r (top bit of octet 48): panic instead of Err"),
+ "C03-n1": ("hoisted L.checked_sub(1) rejects the empty message vector in core_proof_gen (src/bbsplus/proof.rs)", "L = 0"),
+ "C03-n2": ("serde skip_serializing_if on m_cap without default (src/bbsplus/proof.rs)", "U = 0 AND a serde round trip of the proof"),
+ "C04-n1": ("identity checks of Abar/Bbar/D combined with & instead of | (src/bbsplus/proof.rs)", "the degenerate forgery Abar = Bbar = identity, D = Bv"),
+ "C04-n2": ("two sites: length check removed in challenge calculation, != weakened to < in verify init (src/bbsplus/proof.rs)", "more disclosed messages than indexes: the surplus is ignored"),
+ "C05-n1": ("commitment-index range check compares with L instead of M (src/bbsplus/proof.rs)", "L < M and a disclosed committed index j >= L"),
+ "C05-n2": ("verify_blind_sign defaults committed messages and blind factor as a pair (src/bbsplus/blind.rs)", "committed_messages = None together with Some(blind)"),
+ "C06-n1": ("early Ok when the commitment point is the identity (src/bbsplus/commitment.rs)", "an adversarial commitment-with-proof: identity point followed by arbitrary scalars"),
+ "C06-n2": ("an absent L is inferred from the highest disclosed index (src/bbsplus/proof.rs)", "L = None at the verifier for a proof over L > 0 messages with the last one disclosed"),
+ "C07-n1": ("commit(None) forwards None and core_commit then uses a zero blind (src/bbsplus/commitment.rs, two sites)", "Commitment::commit(None) only"),
+ "C07-n2": ("thread-local generator cloned from one process-wide root generator (src/utils/util.rs)", "two threads each drawing scalars"),
+ "C08-n1": ("saturating_sub instead of checked_sub for M in blind_proof_verify (src/bbsplus/proof.rs)", "L = usize::MAX (overflow) or L >= U + R with no commitment indexes (L + 2 generators)"),
+ "C08-n2": ("two sites: membership table in get_remaining_indexes, called before the range check (src/utils/util.rs, proof.rs)", "a disclosed index >= U + R"),
+ "C09-n1": ("proof length check `& 0x0f` instead of `% 32` (src/bbsplus/proof.rs)", "a proof extended or truncated by exactly 16 or 48 octets"),
+ "C09-n2": ("secret key decoded with from_okm (reduces mod r) (src/bbsplus/keys.rs)", "a 32-octet secret key string with value >= r"),
+ "C10-n1": ("DST limit 256 instead of 255 in hash_to_scalar (src/utils/util.rs)", "a DST of exactly 256 octets"),
+ "C10-n2": ("ScalarExt::from_bytes_be built on Scalar::from_raw (always Some, reduces) (src/utils/util.rs)", "an artefact with one scalar re-encoded as x + r"),
+ "C11-n1": ("api_id clamped to 236 octets in create_generators (src/bbsplus/generators.rs)", "two api_ids longer than 236 octets sharing their first 236"),
+ "C11-n2": ("prepare_parameters passes an absent api_id through, losing the BLIND_ prefix (src/bbsplus/blind.rs)", "prepare_parameters(.., api_id = None)"),
+ "C12-n1": ("identity guard tests the increment instead of the new A (src/bbsplus/signature.rs)", "an update whose new value equals the signed value"),
+ "C12-n2": ("empty old/new values skip their term (src/bbsplus/signature.rs)", "an update to or from the empty message"),
+ "C13-n1": ("secure_pow_mod for attribute exponents (src/cl03/signature.rs)", "an attribute equal to 0: sign panics"),
+ "C13-n2": ("minimum-length guard in Signature::from_bytes (src/cl03/signature.rs)", "a signature whose v has a leading zero octet (about 1 in 600)"),
+ "C14-n1": ("`continue` before index += 1 when a revealed attribute is 0 (src/cl03/commitment.rs)", "a revealed attribute 0 followed by a non-zero revealed attribute"),
+ "C14-n2": ("zip over the per-attribute proof arrays in verify_proof (src/cl03/proof.rs)", "an adversarially shortened ZKPoK (sub-proof arrays with fewer entries than hidden positions)"),
+ "C15-n1": ("zip over the per-attribute arrays in proof_verify (src/cl03/proof.rs)", "shortened sub-proof arrays, or a hidden list with a duplicate / an index beyond n"),
+ "C15-n2": ("revealed responses precomputed, missing ones contribute nothing (src/cl03/sigma_protocols.rs)", "n' = n + 1 or n + 2 with enough bases"),
+ "C16-n1": ("large-interval proof compares C mod 2^128 only (src/cl03/range_proof.rs)", "an edit of proof_large_i_{a,b}.C that keeps its low 128 bits"),
+ "C16-n2": ("thread-local cache of the enlarged bounds keyed by (width, T) without rmin (src/cl03/range_proof.rs)", "two range-proof operations on one thread over different intervals of equal width"),
+ "C17-n1": ("per-attribute commitments of the signature proof share one randomness (src/cl03/commitment.rs, proof.rs)", "two or more hidden attributes in a presentation"),
+ "C17-n2": ("vec![random_bits(..); k]: one nonce for all hidden attributes in the C/C_trusted link proof (src/cl03/sigma_protocols.rs)", "trusted-party issuance with two or more hidden attributes"),
+ "C18-n1": ("minimum-length guard in Signature::from_bytes (src/cl03/signature.rs)", "a signature whose v has a leading zero octet"),
+ "C18-n2": ("own-modulus primes drawn with ln/2 - 1 bits (src/cl03/keys.rs)", "CL03CommitmentPublicKey::generate(None, _): N has 1023/1024 bits"),
+ "C19-n1": ("blinder of a hidden attribute sized bits(m) + lin (src/cl03/sigma_protocols.rs)", "a SHORT hidden attribute (0, 42, a timestamp)"),
+ "C19-n2": ("r_4 reuses r_5[0] (src/cl03/sigma_protocols.rs)", "position 0 not hidden: s_4 = m_0 + e*c"),
+}
+SRC2 = "/tmp/mutout2"
+confirm2 = {}
+try:
+    for l in open(f"{SRC2}/CONFIRM.tsv"):
+        p = l.rstrip("\n").split("\t")
+        if len(p) >= 4: confirm2[p[0]] = p[1:]
+except FileNotFoundError: pass
+sens = {}
+for fn, tag in (("/tmp/sens2.log", "harness before the round-2 strengthenings"), ("/tmp/sens2b.log", "final harness")):
+    try:
+        for l in open(fn, errors="replace"):
+            m = re.match(r"^(C\d+-n\d) (C\d+) exit=(\d+) ?(.*)$", l.strip())
+            if m: sens.setdefault(m.group(1), {})[tag] = {"check": m.group(2), "exit": int(m.group(3)), "violation_keys": m.group(4)}
+    except FileNotFoundError: pass
+for name, (what, needs) in sorted(NEEDS2.items()):
+    pid, m = name.split("-")
+    d = f"{SRC2}/{pid}/m{m[1:]}"
+    if not os.path.exists(f"{d}/patch.diff"): continue
+    out = f"/verif/seeded/{name}"
+    os.makedirs(out, exist_ok=True)
+    for f in ("patch.diff", "demo.rs", "notes.md"):
+        if os.path.exists(f"{d}/{f}"): shutil.copy(f"{d}/{f}", f"{out}/{f}")
+    meta = {
+        "breaks_property": pid, "round": 2, "change": what, "needs_to_manifest": needs,
+        "base_commit": "622ac12 (final tree)",
+        "origin": "written by a sub-agent that saw only the text of the property, its own scratch worktree and a list of first-round ideas to avoid",
+        "confirmed_in_scratch_worktree": {"results": confirm2.get(f"{pid}-m{m[1:]}", [])},
+        "checks_run_against_it": "scripts/selftest_sensitivity.sh (scratch worktree of /repo, engines rebuilt against it, own property's check, quick tier)",
+        "own_check": sens.get(name, {}),
+    }
+    json.dump(meta, open(f"{out}/meta.json", "w"), indent=1)
+print("collected incl. round 2:", len(os.listdir("/verif/seeded")))
+
